@@ -142,6 +142,38 @@ pub fn spd3(dmax: i32, offs: &[i32]) -> Vec<(String, Mat)> {
     out
 }
 
+/// Every symmetric positive-definite integer 4x4 matrix with diagonal in 1..=2, off-diagonal entries
+/// in {0,1,-1} and 2-norm condition number <= 1e4 (identity first).
+pub fn spd4() -> Vec<(String, Mat)> {
+    let mut out = vec![("I4".to_string(), oracle::eye(4))];
+    let offs = [0.0, 1.0, -1.0];
+    let mut diag = Vec::new();
+    oracle::for_each_tuple(&[1.0, 2.0], 4, |d| diag.push(d.to_vec()));
+    let mut off = Vec::new();
+    oracle::for_each_tuple(&offs, 6, |o| off.push(o.to_vec()));
+    for d in &diag {
+        for o in &off {
+            if d.iter().all(|v| *v == 1.0) && o.iter().all(|v| *v == 0.0) {
+                continue;
+            }
+            let mut m = oracle::zeros(4, 4);
+            let mut k = 0;
+            for i in 0..4 {
+                m[i][i] = d[i];
+                for j in i + 1..4 {
+                    m[i][j] = o[k];
+                    m[j][i] = o[k];
+                    k += 1;
+                }
+            }
+            if is_spd_int(&m) && oracle::cond2(&m) <= 1e4 {
+                out.push((format!("diag{:?} off{:?}", d, o), m));
+            }
+        }
+    }
+    out
+}
+
 /// Structured SPD families of order n with condition number <= 1e4 (each member named).
 pub fn spd_structured(n: usize) -> Vec<(String, Mat)> {
     let mut out: Vec<(String, Mat)> = Vec::new();
